@@ -510,6 +510,26 @@ func (f *absFrame) eval1(v ssa.Value) absVal {
 					return mv
 				}
 			}
+			// s := helper(x); … s.field …  where helper returns a struct of booleans: one tuple variable per call
+			if fa, ok := x.X.(*ssa.FieldAddr); ok && isBoolType(x.Type()) {
+				if a, ok := fa.X.(*ssa.Alloc); ok {
+					if sv := onlyWholeStore(a); sv != nil {
+						if call, ok := sv.(*ssa.Call); ok {
+							if cal := call.Common().StaticCallee(); cal != nil {
+								if ts := f.e.tupleSet(cal); len(ts) > 0 && fa.Field < len(ts[0]) {
+									key := f.termOfVal(call).String()
+									i, ok := f.st.tup[key]
+									if !ok {
+										f.fork = &absFork{kind: "tup", key: key, n: len(ts)}
+										return absVal{}
+									}
+									return absVal{Kind: "bool", B: ts[i][fa.Field]}
+								}
+							}
+						}
+					}
+				}
+			}
 			if isBoolType(x.Type()) {
 				return f.boolVar(f.termOfVal(v).String())
 			}
@@ -766,12 +786,29 @@ func (e *absExec) tupleSet(fn *ssa.Function) [][]bool {
 	}
 	e.tuples[fn] = nil
 	res := fn.Signature.Results()
-	if res.Len() < 2 || len(fn.Blocks) == 0 {
+	if len(fn.Blocks) == 0 {
 		return nil
 	}
-	for i := 0; i < res.Len(); i++ {
-		if !isBoolType(res.At(i).Type()) {
+	// a single result that is a struct of booleans is the same thing as a tuple of booleans
+	var structRes *types.Struct
+	if res.Len() == 1 {
+		if st, ok := res.At(0).Type().Underlying().(*types.Struct); ok && st.NumFields() >= 2 {
+			structRes = st
+			for i := 0; i < st.NumFields(); i++ {
+				if !isBoolType(st.Field(i).Type()) {
+					return nil
+				}
+			}
+		}
+	}
+	if structRes == nil {
+		if res.Len() < 2 {
 			return nil
+		}
+		for i := 0; i < res.Len(); i++ {
+			if !isBoolType(res.At(i).Type()) {
+				return nil
+			}
 		}
 	}
 	seen := map[string]bool{}
@@ -780,6 +817,40 @@ func (e *absExec) tupleSet(fn *ssa.Function) [][]bool {
 		ret, ok := b.Instrs[len(b.Instrs)-1].(*ssa.Return)
 		if !ok {
 			continue
+		}
+		results := ret.Results
+		if structRes != nil {
+			// the returned struct value: a load of a composite-literal alloc whose fields are stored individually
+			// (fields not stored are false), or the zero value
+			results = make([]ssa.Value, structRes.NumFields())
+			for i := range results {
+				results[i] = ssa.NewConst(constant.MakeBool(false), types.Typ[types.Bool])
+			}
+			switch rv := ret.Results[0].(type) {
+			case *ssa.Const:
+			case *ssa.UnOp:
+				a, isAlloc := rv.X.(*ssa.Alloc)
+				if rv.Op != token.MUL || !isAlloc {
+					return nil
+				}
+				for _, r := range *a.Referrers() {
+					switch y := r.(type) {
+					case *ssa.FieldAddr:
+						for _, r2 := range *y.Referrers() {
+							st, isStore := r2.(*ssa.Store)
+							if !isStore || st.Addr != ssa.Value(y) {
+								return nil
+							}
+							results[y.Field] = st.Val
+						}
+					case *ssa.UnOp:
+					default:
+						return nil
+					}
+				}
+			default:
+				return nil
+			}
 		}
 		// free values of this return
 		var free []ssa.Value
@@ -802,7 +873,7 @@ func (e *absExec) tupleSet(fn *ssa.Function) [][]bool {
 			return len(free) <= 4
 		}
 		ok = true
-		for _, r := range ret.Results {
+		for _, r := range results {
 			if !collect(r) {
 				ok = false
 			}
@@ -828,7 +899,7 @@ func (e *absExec) tupleSet(fn *ssa.Function) [][]bool {
 				asg[fv] = m&(1<<i) != 0
 			}
 			var tup []bool
-			for _, r := range ret.Results {
+			for _, r := range results {
 				tup = append(tup, evalB(r, asg))
 			}
 			k := fmt.Sprint(tup)
@@ -882,4 +953,36 @@ func (e *absExec) bothWays(fn *ssa.Function, start *ssa.BasicBlock, li, ri int) 
 		}
 	}
 	return out, nil
+}
+
+// onlyWholeStore: the single value stored into the local as a whole, when every other use of the local is a load
+// or a read of one of its fields (no field is written, the address does not escape).
+func onlyWholeStore(a *ssa.Alloc) ssa.Value {
+	var stored ssa.Value
+	n := 0
+	for _, r := range *a.Referrers() {
+		switch in := r.(type) {
+		case *ssa.Store:
+			if in.Addr != ssa.Value(a) {
+				return nil
+			}
+			n++
+			stored = in.Val
+		case *ssa.UnOp, *ssa.DebugRef:
+		case *ssa.FieldAddr:
+			for _, r2 := range *in.Referrers() {
+				if _, isLoad := r2.(*ssa.UnOp); !isLoad {
+					if _, isDbg := r2.(*ssa.DebugRef); !isDbg {
+						return nil
+					}
+				}
+			}
+		default:
+			return nil
+		}
+	}
+	if n != 1 {
+		return nil
+	}
+	return stored
 }
